@@ -21,6 +21,8 @@ Definition Fd (nm : N) (tag : option bstr) (t : N) : field := F nm tag (ty_of t)
 Definition AP := AStructPtr.
 Definition AS := AStruct.
 Definition AN := ANonStruct.
+Definition AZ := ANil.                 (* ParseFields(nil) / Struct{Value: nil} *)
+Definition AZP := ANilStructPtr.       (* a nil pointer of type pointer-to-T, T the struct of the given shape *)
 
 Inductive mode :=
 | MNew (allow : bool) (extra : list name)        (* NewStore{Structs: {ptr, prefix}, Secrets: extra} *)
@@ -102,7 +104,9 @@ Definition intact_model (s' : store N) (frs : list (fres N N)) (svc : list (name
   forallb (fun '(n, _) =>
              option_beq (option_beq N.eqb) (served s' (poked_by frs) n) (served s' (fun _ => false) n)) svc.
 
-Definition shape_of (a : arg) : list item := match a with AStructPtr sh => sh | AStruct sh => sh | ANonStruct => [] end.
+(* the struct whose leaf fields the harness can look at afterwards (none behind a nil pointer) *)
+Definition shape_of (a : arg) : list item :=
+  match a with AStructPtr sh => sh | AStruct sh => sh | ANonStruct | ANil | ANilStructPtr _ => [] end.
 
 Definition check_run (md : mode) (a : arg) (pfx : bstr) svc unmfail jt (o : obs) : bool :=
   let ans := fun n => assoc n svc in
